@@ -816,6 +816,8 @@ def main(argv):
             "axioms allowed: propext, Classical.choice, Quot.sound (audited per theorem on every run)",
             "hand-written Lean model lean/SpecVerif/Model/*.lean, tied to /repo by the correspondence run reported below",
             "Python harness (harness/*.py), line protocol, tolerances stated per case kind",
+            "registry generator and source translator (harness/registry_gen.py, harness/srcgen.py): Generated/*.lean are rewritten from the "
+            "imported package on every run; the equality theorems of C06 / C13 are about the translator's output",
         ],
         "partial_clauses": getattr(mod, "PARTIAL", []),
         "evaluations": res.n_cases,
